@@ -97,11 +97,13 @@ def all_idx(shape, N):
 
 
 def gen_base(rng):
-    shape = rng.choice([(), (1,), (2,), (3,), (2, 2), (2, 3), (3, 3), (1, 2), (3, 1), (2, 2)])
+    shape = rng.choice([(), (1,), (2,), (3,), (2, 2), (2, 3), (3, 3), (1, 2), (3, 1), (2, 2), (2, 3, 2), (2, 2, 2)])
     ninf = rng.choice([0, 1, 1, 1, 2, 2, 3])
     if not shape and ninf == 0 and rng.random() < 0.7:
         ninf = 1
-    N = tuple({0: 0, 1: 3, 2: 2, 3: 1}[ninf] for _ in range(ninf))
+    if len(shape) == 3:
+        ninf = min(ninf, 2)
+    N = tuple(({0: 0, 1: 3, 2: 2, 3: 1}[ninf] if len(shape) < 3 else {0: 0, 1: 2, 2: 1}[ninf]) for _ in range(ninf))
     nbase = rng.choice([1, 1, 2])
     p_zero = rng.choice([0.0, 0.2, 0.4])
     p_bad = rng.choice([0.0, 0.0, 0.08])
@@ -149,14 +151,18 @@ def gen_base(rng):
     )
 
 
+def _ri(rng, d):
+    return rng.randint(-d, d - 1) if d > 0 else 0
+
+
 def rand_finite_index(rng, d):
     if d == 0:
         return rng.choice([["slice", None, None, None], [], 0])
     r = rng.random()
     if r < 0.45:
-        return rng.randint(-d, d - 1)
+        return _ri(rng, d)
     if r < 0.65:
-        return [rng.randint(-d, d - 1) for _ in range(rng.choice([1, 2, 2, 3]))]
+        return [_ri(rng, d) for _ in range(rng.choice([1, 2, 2, 3]))]
     if r < 0.95:
         return ["slice", rng.choice([None, None, 0, 1, -1]), rng.choice([None, None, 1, 2, d, -1]), rng.choice([None, None, 1, 2])]
     return rng.choice([d, -d - 1, [0, d]])  # out of bounds
@@ -182,8 +188,10 @@ def gen_item(rng, shape, ninf, N):
     lists = [e for e in fin if isinstance(e, list) and (not e or e[0] != "slice")]
     if len(lists) > 1 and rng.random() < 0.8:
         L = len(lists[0])
-        fin = [([rng.randint(-shape[k], shape[k] - 1) for _ in range(L)] if (isinstance(e, list) and (not e or e[0] != "slice")) else e) for k, e in enumerate(fin)]
+        fin = [([_ri(rng, shape[k]) for _ in range(L)] if (isinstance(e, list) and (not e or e[0] != "slice")) else e) for k, e in enumerate(fin)]
     if ninf and r < 0.15:
+        if nf == 3 and rng.random() < 0.6:  # a list between two slices
+            fin = [["slice", None, None, None], [_ri(rng, shape[1]) for _ in range(rng.choice([1, 2, 3]))], ["slice", None, None, None]]
         return fin  # finite-only: a view
     orders = [rand_order_index(rng, N[k] if k < len(N) else 1) for k in range(ninf)]
     olists = [e for e in fin + orders if isinstance(e, list) and (not e or e[0] != "slice")]
